@@ -4,7 +4,10 @@ from .util import call
 
 ID = 'C17'
 LEAN_MODULE = 'KernProofs.C17'
-THEOREMS = ['KM.C17.preL_append', 'KM.C17.sizeL_append', 'KM.C17.dfsStack_eq', 'KM.C17.C17_dfs_is_preorder', 'KM.C17.C17_filtered_is_subsequence', 'KM.C17.C17_filter_is_closure', 'KM.C17.C17_empty_filter', 'KM.C17.uniqueToks_sublist', 'KM.C17.uniqueToks_not_seen', 'KM.C17.uniqueToks_nodup', 'KM.C17.uniqueToks_covers', 'KM.C17.C17_unique', 'KM.C17.freqAdd_eq', 'KM.C17.map_inc_noKey', 'KM.C17.keys_map_inc', 'KM.C17.total_map_inc', 'KM.C17.freqAdd_spec', 'KM.C17.foldl_freq', 'KM.C17.C17_frequencies_sum', 'KM.C17.C17_metacomments_by_key']
+EXTRA_MODULES = ['KernProofs.C17Tree']
+THEOREMS = ['KM.C17.preL_append', 'KM.C17.sizeL_append', 'KM.C17.dfsStack_eq', 'KM.C17.C17_dfs_is_preorder', 'KM.C17.C17_filtered_is_subsequence', 'KM.C17.C17_filter_is_closure', 'KM.C17.C17_empty_filter', 'KM.C17.uniqueToks_sublist', 'KM.C17.uniqueToks_not_seen', 'KM.C17.uniqueToks_nodup', 'KM.C17.uniqueToks_covers', 'KM.C17.C17_unique', 'KM.C17.freqAdd_eq', 'KM.C17.map_inc_noKey', 'KM.C17.keys_map_inc', 'KM.C17.total_map_inc', 'KM.C17.freqAdd_spec', 'KM.C17.foldl_freq', 'KM.C17.C17_frequencies_sum', 'KM.C17.C17_metacomments_by_key',
+            'KM.C17T.mem_children', 'KM.C17T.dfs_sub', 'KM.C17T.climb_compose', 'KM.C17T.climb_sub', 'KM.C17T.children_nodup', 'KM.C17T.sub_nodup',
+            'KM.C17T.sub_closed', 'KM.C17T.cover', 'KM.C17T.listing_exactly_once', 'KM.C17T.tinv2_step', 'KM.C17T.C17_listing_exactly_once', 'KM.C17T.C17_listing_length']
 FINGERPRINTS = ['document.Document', 'document.Node', 'document.TokensTraversal', 'document.MetacommentsTraversal', 'public', 'importer.Importer']
 RULE = ('generated documents with global comments before, inside and after the spines, nested splits and joins (quick 40 / thorough 400) x EVERY single '
         'category and random category sets: the token listing is compared with the spine-path order computed from the source grid alone (pre-header '
